@@ -86,6 +86,7 @@ func c04Exhaustive(c *hx.Ctx, depth int) {
 		a := make([]byte, len(names))
 		b := make([]byte, len(names))
 		for ni, n := range names {
+			tick(fmt.Sprintf("Match(%q) on {%q}", n, f))
 			r := t.Match(n)
 			a[ni] = cell(r)
 			v := t.MatchFirst(n)
@@ -103,6 +104,7 @@ func c04Exhaustive(c *hx.Ctx, depth int) {
 		a := make([]byte, len(filters))
 		b := make([]byte, len(filters))
 		for fi, f := range filters {
+			tick(fmt.Sprintf("Search(%q) on {%q}", f, n))
 			r := t.Search(f)
 			a[fi] = cell(r)
 			v := t.SearchFirst(f)
@@ -117,7 +119,7 @@ func c04Exhaustive(c *hx.Ctx, depth int) {
 	c.Sample(fmt.Sprintf("exhaustive depth %d: %d filters x %d names, e.g. filter %q name %q", depth, len(filters), len(names), filters[len(filters)/2], names[len(names)/2]))
 }
 
-var bigAlphabet = []string{"a", "b", "c", "", "é", "日本", "x y", "$SYS", "A", "ab", "ß∂", "0", "\U0001F600"}
+var bigAlphabet = []string{"a", "b", "c", "", "é", "e\u0301", "日本", "x y", "$SYS", "A", "ab", "ß∂", "0", "\U0001F600"}
 
 func randLevel(c *hx.Ctx) string { return bigAlphabet[c.Rng.Intn(len(bigAlphabet))] }
 
@@ -194,24 +196,96 @@ func instantiate(c *hx.Ctx, f []string) []string {
 
 func isName(t string) bool { return !strings.ContainsAny(t, "+#\x00") }
 
-func c04Set(c *hx.Ctx, k int, entries []string, evals []int, queries []string) {
-	t := topic.NewStandardTree()
+// c04Set builds one tree with Add and asks the four queries.  custom: the tree is
+// topic.NewTree(".", "*", ">") and every topic is renamed on the way in; the exchange file
+// always carries the standard form, so the same specification judges both.
+func c04Set(c *hx.Ctx, k int, entries []string, evals []int, queries []string, custom bool) {
+	t, m := topic.NewStandardTree(), ident
+	if custom {
+		t, m = topic.NewTree(".", "*", ">"), toCustom.Replace
+		c.Stat("custom_tree_sets", 1)
+	}
 	parts := make([]string, len(entries))
 	for i, e := range entries {
-		t.Add(e, evals[i])
+		t.Add(m(e), val(evals[i]))
 		parts[i] = fmt.Sprintf("%s:%d", hexs(e), evals[i])
 	}
 	c.Emit("set %d %s", k, strings.Join(parts, " "))
 	for _, q := range queries {
-		m, mf := "~", "~"
+		tick(fmt.Sprintf("queries on %q, set %q", q, entries))
+		mt, mf := "~", "~"
 		if isName(q) {
-			m, mf = vals(t.Match(q)), first(t.MatchFirst(q))
+			mt, mf = vals(t.Match(m(q))), first(t.MatchFirst(m(q)))
 			c.Stat("queries", 2)
 		}
-		s, sf := sortedVals(t.Search(q)), first(t.SearchFirst(q))
+		s, sf := sortedVals(t.Search(m(q))), first(t.SearchFirst(m(q)))
 		c.Stat("queries", 2)
-		c.Emit("q %d %s M=%s MF=%s S=%s SF=%s", k, hexs(q), m, mf, s, sf)
+		c.Emit("q %d %s M=%s MF=%s S=%s SF=%s", k, hexs(q), mt, mf, s, sf)
 	}
+	c.Stat("sets", 1)
+}
+
+// c04Corpus: hand-made sets for situations the random generator reaches only by chance.
+func c04Corpus(c *hx.Ctx) int {
+	deep := "l1/l2/l3/l4/l5/l6/l7/l8/l9/l10/l11/l12"
+	type hand struct {
+		entries []string
+		vals    []int
+		queries []string
+	}
+	corpus := []hand{
+		// one value under every kind of matching filter: it must come back once
+		{[]string{"a/+", "a/#", "#", "a/b", "+/b", "+/+", "a/b/#", "+/#"}, []int{1, 1, 1, 1, 1, 1, 1, 1},
+			[]string{"a/b", "a", "a/b/c", "b", "", "/", "a/", "/a", "a/+", "#", "+/+", "a/#"}},
+		// distinct values under every kind of filter: each exactly once, none missing
+		{[]string{"a/+", "a/#", "#", "a/b", "+/b", "+/+", "a/b/#", "+", "a"}, []int{1, 2, 3, 4, 5, 6, 8, 9, 10},
+			[]string{"a/b", "a", "a/b/c", "b", "b/b", "", "/", "a/", "+", "+/+", "#", "a/#", "a/+/#", "+/#"}},
+		// names against filters (search direction), with empty levels and the parent level of '#'
+		{[]string{"a", "a/b", "a/b/c", "/a", "a/", "", "/", "a//b", "b"}, []int{1, 2, 3, 4, 5, 6, 8, 9, 10},
+			[]string{"a/+", "a/#", "#", "+", "+/+", "/+", "+/", "a/+/#", "+/#", "/#", "a/+/b", "a", "a/b", "", "/"}},
+		// byte-exact comparison: case, prefixes, trailing blank, combining characters
+		{[]string{"A/b", "a/b", "a/B", "ab", "a/b ", " a/b", "\u00e9", "e\u0301", "a/bb", "aa/b"}, []int{1, 2, 3, 4, 5, 6, 8, 9, 10, 11},
+			[]string{"a/b", "A/b", "a/B", "A/B", "ab", "a/b ", " a/b", "\u00e9", "e\u0301", "e", "+/b", "a/+", "+", "#"}},
+		// values that differ only by identity (two pointers to equal structs), a string, zero
+		{[]string{"a/+", "a/#", "a/b", "+/b", "#"}, []int{900001, 900002, 900003, 0, 7},
+			[]string{"a/b", "a", "x/b", "a/+", "a/#", "+/+", "#"}},
+		{[]string{"a/b", "a/c", "a"}, []int{900001, 900002, 900001}, []string{"a/b", "a/c", "a", "a/+", "a/#", "+"}},
+		// deep topics that differ only far down
+		{[]string{deep, deep + "/x", "l1/l2/l3/l4/l5/l6/l7/l8/l9/l10/l11/zz", "l1/l2/l3/l4/l5/l6/l7/l8/l9/zz/l11/l12",
+			"l1/l2/l3/l4/l5/l6/l7/l8/l9/+/l11/l12", "l1/l2/l3/l4/l5/l6/l7/l8/l9/l10/#", "l1/+/l3/+/l5/+/l7/+/l9/+/l11/+"},
+			[]int{1, 2, 3, 4, 5, 6, 8},
+			[]string{deep, deep + "/x", "l1/l2/l3/l4/l5/l6/l7/l8/l9/l10/l11/zz", "l1/l2/l3/l4/l5/l6/l7/l8/l9/zz/l11/l12",
+				"l1/l2/l3/l4/l5/l6/l7/l8/l9/l10", "l1/l2/l3/l4/l5/l6/l7/l8/l9/+/l11/+", "l1/l2/l3/l4/l5/l6/l7/l8/#", "l1/l2/l3/l4/l5/l6/l7/l8/l9/l10/l11/+"}},
+	}
+	// very deep topics (an MQTT topic may have thousands of levels)
+	d300 := strings.Repeat("d/", 299) + "d"
+	d300plus := strings.Repeat("d/", 150) + "+/" + strings.Repeat("d/", 148) + "d"
+	d200hash := strings.Repeat("d/", 200) + "#"
+	corpus = append(corpus, hand{[]string{d300, d300plus, d200hash, d300 + "/e", strings.Repeat("+/", 299) + "+"}, []int{1, 2, 3, 4, 5},
+		[]string{d300, d300 + "/e", strings.Repeat("d/", 298) + "d", strings.Repeat("d/", 299) + "x", d300plus, d200hash, strings.Repeat("d/", 299) + "+"}})
+	k := 9000000
+	for _, h := range corpus {
+		for _, custom := range []bool{false, true} {
+			c04Set(c, k, h.entries, h.vals, h.queries, custom)
+			k++
+		}
+	}
+	return k
+}
+
+// c04Pairs: every tree with two entries over the filters of depth <= 2 on levels {a, empty, +} and '#',
+// with two different values and with the same value twice; every such filter and every name of depth <= 3 is asked.
+func c04Pairs(c *hx.Ctx, k int) {
+	filters := genTopics([]string{"a", "", "+"}, 2, true)
+	queries := append(append([]string{}, filters...), genTopics([]string{"a", ""}, 3, false)...)
+	for _, f1 := range filters {
+		for _, f2 := range filters {
+			c04Set(c, k, []string{f1, f2}, []int{1, 2}, queries, false)
+			c04Set(c, k+1, []string{f1, f2}, []int{1, 1}, queries, false)
+			k += 2
+		}
+	}
+	c.Stat("pair_trees", 2*len(filters)*len(filters))
 }
 
 func c04Random(c *hx.Ctx, sets int) {
@@ -241,7 +315,7 @@ func c04Random(c *hx.Ctx, sets int) {
 				e = generalise(c, randName(c, maxDepth))
 			}
 			entries = append(entries, strings.Join(e, "/"))
-			evals = append(evals, 1+c.Rng.Intn(5))
+			evals = append(evals, []int{1, 2, 3, 900001, 900002, 0}[c.Rng.Intn(6)])
 			names = append(names, e)
 		}
 		var queries []string
@@ -261,7 +335,7 @@ func c04Random(c *hx.Ctx, sets int) {
 		if k == 0 {
 			c.Sample(fmt.Sprintf("random set: entries %q queries %q", entries, queries[:4]))
 		}
-		c04Set(c, k, entries, evals, queries)
+		c04Set(c, k, entries, evals, queries, k%3 == 2)
 		c.Stat("random_sets", 1)
 	}
 }
@@ -299,7 +373,8 @@ func c04Replay(c *hx.Ctx) {
 					queries = append(queries, unhex(w2[2]))
 				}
 			}
-			c04Set(c, 1000000+k, entries, evals, queries)
+			c04Set(c, 1000000+k, entries, evals, queries, false)
+			c04Set(c, 2000000+k, entries, evals, queries, true)
 			k++
 		}
 	}
@@ -315,5 +390,6 @@ func runC04(c *hx.Ctx) {
 		depth, sets = 6, 40000
 	}
 	c04Exhaustive(c, depth)
+	c04Pairs(c, c04Corpus(c))
 	c04Random(c, sets)
 }
